@@ -270,15 +270,20 @@ class GwTridonic(Gateway):
             self.report(self.MODE_RESPONSE, 0x77, [0, 0, 0, 3], seq)
 
     def observe(self, kind, value=0, bits=16):
-        """traffic of another master, reported by the gateway: kind fwd|back|err|none"""
+        """traffic of another master, reported by the gateway: kind fwd|back|err|none; a leading "q" stands for the
+        firmware quirk documented in the driver: foreign traffic reported in response mode (as if the gateway had sent it
+        itself) with a sequence number that is not outstanding"""
+        mode = self.MODE_OBSERVE
+        if kind.startswith("q"):
+            mode, kind = self.MODE_RESPONSE, kind[1:]
         if kind == "fwd":
-            self.report(self.MODE_OBSERVE, 0x73 if bits == 16 else 0x76, list(value.to_bytes(4, "big")), 0)
+            self.report(mode, 0x73 if bits == 16 else 0x76, list(value.to_bytes(4, "big")), 0)
         elif kind == "back":
-            self.report(self.MODE_OBSERVE, 0x72, [0, 0, 0, value], 0)
+            self.report(mode, 0x72, [0, 0, 0, value], 0)
         elif kind == "err":
-            self.report(self.MODE_OBSERVE, 0x77, [0, 0, 0, 3], 0)
+            self.report(mode, 0x77, [0, 0, 0, 3], 0)
         else:
-            self.report(self.MODE_OBSERVE, 0x71, [0, 0, 0, 0], 0)
+            self.report(mode, 0x71, [0, 0, 0, 0], 0)
 
 
 class GwHasseb(Gateway):
@@ -356,12 +361,22 @@ class SerialGateway(Gateway):
         self.loop.add_reader(self.fd, self._deliver)
 
     def _deliver(self):
-        if self.arrived:
+        """scenario 'coalesce': 0 one chunk per reader callback; 1 everything that has arrived in one data_received()
+        call (bytes of several frames read together); 2 everything that has arrived, one call per frame, back to back"""
+        mode = self.sc.get("coalesce", 0)
+        chunks = []
+        while self.arrived:
             self.nreports_delivered += 1
             chunk = self.arrived.popleft()
             if getattr(self, "elog", None) and getattr(chunk, "tk", None):
                 self.elog({"ev": "deliver", "kind": chunk.tk})
+            chunks.append(chunk)
             self.fire("after_report", self.nreports_delivered)
+            if mode == 0:
+                break
+        if mode == 1 and chunks:
+            chunks = [b"".join(bytes(c) for c in chunks)]
+        for chunk in chunks:
             self.protocol.data_received(chunk)
 
     def readable(self):
